@@ -24,14 +24,18 @@ def check(prog, rep):
     Z.check_positional_id_use(prog, rep, fs, entry)
     Z.check_strides(prog, rep, m, 'stats')
     Z.check_default_stats(prog, rep, m, 'stats')
+    Z.check_user_reducers(prog, rep, m, 'stats')
+    rep.floor('ZT-user', 1)
     check_scatter(prog, rep, m)
     # the statement is backend-neutral: the dask tables of zonal.stats must realise the same statistics
     Z.check_dask_tables(prog, rep, m, 'stats[dask]')
     Z.check_derived_stats(prog, rep, m, fs, 'stats[dask]')
     Z.check_global_ids(prog, rep, m, 'stats[dask]')
     Z.check_alignment(prog, rep, m, 'stats', 'stats[dask]')       # the blocks that are paired are the aligned ones
-    from ..sharedrules import check_values_keep_dtype
+    from ..sharedrules import check_values_keep_dtype, check_value_truthiness
     check_values_keep_dtype(prog, rep, 'Z3-dtype', pub, 'stats')
+    check_value_truthiness(prog, rep, 'Z3-truth', pub, 'stats')
+    rep.floor('Z3-truth', 1)
     rep.floor('Z3-dtype', 1)
     rep.floor('Z1', 1)
     rep.floor('Z2', 1)
